@@ -6,6 +6,7 @@ import Driver.Sinks
 import Driver.Json
 import Driver.CloudEvents
 import Driver.Encrypt
+import Driver.EncryptTree
 open Driver
 
 def main (args : List String) : IO UInt32 := do
@@ -20,4 +21,5 @@ def main (args : List String) : IO UInt32 := do
   | ["json"] => loop stdin stdout Driver.Json.stepLine (); return 0
   | ["ce"] => loop stdin stdout Driver.CloudEvents.stepLine (); return 0
   | ["encrypt"] => loop stdin stdout Driver.Encrypt.stepLine { wrapper := none, salt := none, info := none }; return 0
+  | ["enctree"] => loop stdin stdout Driver.EncryptTree.stepLine (); return 0
   | _ => IO.eprintln "usage: evldriver <model>"; return 2
